@@ -196,6 +196,8 @@ Proof.
   - destruct (input_block_size s <? unprocessed s).
     + destruct (a_result a); discriminate.
     + destruct (a_result a); cbn [negb] in H; [|discriminate].
+      match type of H with (if ?c then _ else _) = _ => destruct c; [discriminate|] end.
+      match type of H with (if ?c then _ else _) = _ => destruct c; [discriminate|] end.
       inversion H; subst s2; clear H. exists a, rest. cbn. repeat split; try assumption; reflexivity.
 Qed.
 
@@ -617,6 +619,7 @@ Proof.
   destruct (N.eqb_spec (a_block a0) blk) as [Eb|]; cbn [negb] in H; [|discriminate].
   destruct (Bool.eqb (a_inplace a0) ip); cbn [negb] in H; [|discriminate].
   destruct (a_result a0); cbn [negb] in H; [|discriminate].
+  match type of H with (if ?c then _ else _) = _ => destruct c; [discriminate|] end.
   inversion H; subst. exists rest. repeat split; assumption.
 Qed.
 
